@@ -806,9 +806,14 @@ fn plan_of(case: &AttrCase) -> (Plan, u32, bool, bool, bool) {
             year_boundary |= d.iso_week().year() != d.year();
         }
         let n_trades = if batches(cell) { m.trades.len().clamp(1, 3) } else { 1 };
-        let trades: Vec<TradeGen> = m.trades.iter().take(n_trades).copied().collect();
+        let mut trades: Vec<TradeGen> = m.trades.iter().take(n_trades).copied().collect();
         if trades.is_empty() {
             continue;
+        }
+        // one taker order sweeping two equal resting orders at one level: two rows that state the same
+        // price, amount, time and side (only the trade id, where the venue gives one, differs)
+        if trades.len() >= 2 && trades[1].id % 4 == 0 {
+            trades[1] = TradeGen { id: trades[1].id, ..trades[0] };
         }
         if m.lookalike {
             // unsubscribed look-alikes of the target's market
@@ -924,6 +929,7 @@ impl Check for Attribution {
                 rep.class(LABELS[case.cell as usize % 21][case.form as usize % 3]);
                 rep.class_if(prefix_pair, "instruments_sharing_a_prefix");
                 rep.class_if(year_boundary, "okx_expiry_at_year_boundary");
+                rep.class_if(batches(plan.cell) && case.messages.iter().any(|m| m.trades.len() >= 2 && m.trades[1].id % 4 == 0), "batch_with_two_identical_rows");
                 rep.class_if(case_variant_probe, "unsubscribed_probe_is_a_case_variant_of_a_subscribed_market");
                 rep.class_if(plan.insts.iter().any(|i| match &i.kind { MarketDataInstrumentKind::Future(f) => f.expiry.time() >= chrono::NaiveTime::from_hms_opt(16, 0, 0).unwrap(), MarketDataInstrumentKind::Option(o) => o.expiry.time() >= chrono::NaiveTime::from_hms_opt(16, 0, 0).unwrap(), _ => false }), "expiry_late_in_the_utc_day");
                 rep.class_if(plan.batch.len() > plan.insts.len(), "subscription_repeated_in_batch");
